@@ -620,11 +620,12 @@ macro_rules! wrap_impl_uint {
                 }
                 fn pingpong(self, upper: Self) -> Self {
                     assert!(upper > Self::zero());
-                    let r = self % (upper+upper);
-                    if r < upper {
+                    // Triangle wave of period 2*upper, computed without forming 2*upper (which may not be representable).
+                    let r = self % upper;
+                    if (self / upper) % (Self::one() + Self::one()) == Self::zero() {
                         r
                     } else {
-                        upper+upper-r
+                        upper - r
                     }
                 }
             }
